@@ -407,6 +407,7 @@ RULE = (
     "(A then B of another size, smaller then larger, other data of the same shape; with-y then without-y), repetition. non-trivial = write-protected or non-C layout or a refit "
     "history judged; distinct by entry+layout+data hash."
 )
+RULE = RULE + " " + 'Every case repeats the call chain on memoryview / __array__ holders of its 2-D float arguments (where the entry point accepts them) and compares the memory behind them byte by byte.'
 ASSUMPTIONS = [
     "explicit opt-ins to in-place work (KernelNormalizer.transform(copy=False), orthogonalizers with copy=False) are outside the statement",
     "user-supplied estimator objects (regressor, linear_estimator, scaler) being fitted is not an array mutation and is not judged",
